@@ -61,7 +61,7 @@ def imm_domain(m):
     """complete legal + unspecified-spelling immediate domain of the mnemonic's last operand"""
     c = fmt_class(m)
     if m == 'jalr':
-        return range(-2048, 2048, 2)
+        return range(-2048, 2048)      # the I format's complete range; the assembler documents odd offsets as refused (then nothing is judged)
     if c in ('I', 'S'):
         return range(-2048, 2048)
     if c == 'CSR':
@@ -90,7 +90,13 @@ def check_tuple(asm, acc, m, f, args, kw=None):
     dec = monitors.decode_any(m, w)
     acc['ctr']['enc:' + m] += 1
     if status == operands.REJECT:
-        return True        # out-of-range acceptance is C06's business; C01 enumerates representable tuples only
+        # out-of-range acceptance is C06's business; C01 only asks whether the accepted tuple got a word of its own
+        named = dict(zip(operands.FIELDS[m], args), name=m)
+        raw = rv.decode32(w) if isinstance(w, int) and 0 <= w <= 0xffffffff else None
+        if raw is not None and all(isinstance(v, int) for v in args) and not kw and fmt_class(m) in ('I', 'S', 'B', 'J') and raw != named:
+            core.add_viol(acc, 'encoder %s%r accepted and -> %#010x, which decodes to %r: the word of a different operand tuple' % (m, tuple(args), w, raw),
+                          {'kind': 'enc1', 'm': m, 'args': list(args), 'kw': kw or {}}, {'word': w, 'decoded': raw, 'named': named})
+        return True
     if dec != exp:
         core.add_viol(acc, 'encoder %s%r %r -> %#010x decodes to %r, the operands named %r' % (m, tuple(args), kw or {}, w, dec, exp),
                       {'kind': 'enc1', 'm': m, 'args': list(args), 'kw': kw or {}}, {'word': w, 'decoded': dec, 'expected': exp})
@@ -151,6 +157,12 @@ def grid(asm, acc, m, doms, deadline, kws=(None,), dedupe=None):
                                   {'kind': 'enc1', 'm': m, 'args': list(tup), 'kw': kw or {}}, {'word': w, 'decoded': d, 'expected': e2})
                 elif st != operands.REJECT:
                     ok += 1
+                elif d is not None and all(isinstance(v, int) for v in tup) and not kw and c in ('I', 'S', 'B', 'J'):
+                    # the operand model says "not representable", the encoder accepted it anyway (C06 reports that) - and the word
+                    # does not even decode to what was named: another operand tuple of this mnemonic owns this word
+                    bad += 1
+                    core.add_viol(acc, 'encoder %s%r %r accepted and -> %#010x, which decodes to %r: the word of a different operand tuple' % (m, tup, kw or {}, w, d),
+                                  {'kind': 'enc1', 'm': m, 'args': list(tup), 'kw': kw or {}}, {'word': w, 'decoded': d, 'named': exp})
         if time.time() > deadline:
             acc['truncated'] += 1
             break
